@@ -121,6 +121,7 @@ def cases(tier):
 
 def enumerate_cases(tier):
     yield from c01.css_name_rows(["picosvg"])
+    yield from c01.origin_rows(["picosvg"])
 
 
 def shrink(case):
